@@ -788,7 +788,8 @@ bool SoPlexBase<R>::getPrimalRayReal(R* vector, int dim)
    {
       _syncRealSolution();
       auto& primalRay = _solReal._primalRay;
-      std::copy(primalRay.begin(), primalRay.end(), vector);
+      // the stored vector can still have the dimension of an earlier solve: never write more than the LP has
+      std::copy(primalRay.begin(), primalRay.begin() + std::min(primalRay.dim(), numCols()), vector);
 
       return true;
    }
@@ -806,7 +807,8 @@ bool SoPlexBase<R>::getDualReal(R* p_vector, int dim) // For SCIP
    {
       _syncRealSolution();
       auto& dual = _solReal._dual;
-      std::copy(dual.begin(), dual.end(), p_vector);
+      // the stored vector can still have the dimension of an earlier solve: never write more than the LP has
+      std::copy(dual.begin(), dual.begin() + std::min(dual.dim(), numRows()), p_vector);
 
       return true;
    }
@@ -825,7 +827,8 @@ bool SoPlexBase<R>::getRedCostReal(R* p_vector, int dim) // For SCIP compatibili
    {
       _syncRealSolution();
       auto& redcost = _solReal._redCost;
-      std::copy(redcost.begin(), redcost.end(), p_vector);
+      // the stored vector can still have the dimension of an earlier solve: never write more than the LP has
+      std::copy(redcost.begin(), redcost.begin() + std::min(redcost.dim(), numCols()), p_vector);
 
       return true;
    }
@@ -845,7 +848,8 @@ bool SoPlexBase<R>::getDualFarkasReal(R* vector, int dim)
    {
       _syncRealSolution();
       auto& dualFarkas = _solReal._dualFarkas;
-      std::copy(dualFarkas.begin(), dualFarkas.end(), vector);
+      // the stored vector can still have the dimension of an earlier solve: never write more than the LP has
+      std::copy(dualFarkas.begin(), dualFarkas.begin() + std::min(dualFarkas.dim(), numRows()), vector);
 
       return true;
    }
@@ -1146,7 +1150,8 @@ bool SoPlexBase<R>::getPrimalReal(R* p_vector, int size)
       _syncRealSolution();
 
       auto& primal = _solReal._primal;
-      std::copy(primal.begin(), primal.end(), p_vector);
+      // the stored vector can still have the dimension of an earlier solve: never write more than the LP has
+      std::copy(primal.begin(), primal.begin() + std::min(primal.dim(), numCols()), p_vector);
 
       return true;
    }
@@ -3861,7 +3866,8 @@ bool SoPlexBase<R>::getSlacksReal(R* p_vector, int dim)
       _syncRealSolution();
 
       auto& slacks = _solReal._slacks;
-      std::copy(slacks.begin(), slacks.end(), p_vector);
+      // the stored vector can still have the dimension of an earlier solve: never write more than the LP has
+      std::copy(slacks.begin(), slacks.begin() + std::min(slacks.dim(), numRows()), p_vector);
 
       return true;
    }
